@@ -37,9 +37,38 @@ def cFreeName (ns ty : List Char) : List Char := ns ++ ['_'] ++ Heck.snake ty ++
 /-- `type_resource`: `<ns>_<snake>_drop_own` -/
 def cDropOwnName (ns res : List Char) : List Char := ns ++ ['_'] ++ Heck.snake res ++ "_drop_own".toList
 
+/-! ### `interface_identifier`: the C namespace of an interface `ns:pkg/iface@version` -/
+
+/-- `s.replace(chars, to)` for a set of single characters -/
+def applyRepl (r : List Char × List Char) (s : List Char) : List Char :=
+  s.flatMap fun c => if r.1.contains c then r.2 else [c]
+
+/-- the version as it enters an identifier: the extracted `.replace` chain, in order -/
+def mangleVersion (v : List Char) : List Char :=
+  Witverif.Generated.CIdent.versionReplacements.foldl (fun s r => applyRepl r s) v
+
+/-- `interface_identifier` for `WorldKey::Interface` without `--rename`: `[exports_]<ns>_<pkg>_[<version>_]<iface>`;
+the version is present iff the package occurs with several versions in the `Resolve` (`multi`) and has one -/
+def interfaceIdentifier (inExport : Bool) (ns pkg : List Char) (ver : Option (List Char)) (multi : Bool)
+    (iface : List Char) : List Char :=
+  (if inExport then "exports_".toList else []) ++ Heck.snake ns ++ ['_'] ++ Heck.snake pkg ++ ['_'] ++
+    (match multi, ver with
+     | true, some v => mangleVersion v ++ ['_']
+     | _, _ => []) ++
+    Heck.snake iface
+
 end Witverif.Text.CIdent
 
 namespace Witverif.Text.CIdentSpec
+
+/-- characters of a C identifier -/
+def cIdentChar (c : Char) : Bool :=
+  Heck.isAsciiLower c || Heck.isAsciiUpper c || Heck.isAsciiDigit c || c == '_'
+
+/-- characters of a semver version string (`MAJOR.MINOR.PATCH[-pre.release][+build.meta]`) -/
+def semverChars : List Char :=
+  "0123456789abcdefghijklmnopqrstuvwxyzABCDEFGHIJKLMNOPQRSTUVWXYZ.-+".toList
+
 
 /-- identifiers the generated C must avoid: the lower-case C17 keywords (the `_Xxx` keywords cannot be
 produced from a WIT name), the GNU keywords `asm`/`typeof` of clang's default gnu17, and the macros
